@@ -754,6 +754,13 @@ pub fn gen_tuple(i: usize, seed: u64) -> Tuple {
         vf_core::gen::mutate_random(&mut font, &dir, &mut rng, &mut p, Some(focus));
         shape.push_str(&format!("font-mutated[{}]{}", String::from_utf8_lossy(focus), p.describe()));
     }
+    if rng.chance(1, 6) {
+        // directed: disorder the CharStrings INDEX offset array of a CFF / CFF2 base font (the
+        // glyph-keyed patcher copies runs of retained charstrings by offset arithmetic)
+        if let Some(d) = disorder_charstrings_index(&mut font, &mut rng) {
+            shape.push_str(&d);
+        }
+    }
     let def = gen_subset(&mut rng, &mut shape);
 
     let compat_a = cid(&ift);
@@ -1251,4 +1258,68 @@ pub fn sec_ift(ctx: &mut Ctx, items: &mut Items) {
         }
         run_item(ctx, i, seed);
     }
+}
+
+
+/// Finds the CharStrings INDEX of the font's CFF / CFF2 table and rewrites one or two entries of
+/// its offset array so that it is no longer ascending at a chosen position (even and odd
+/// positions, inside and at the ends), keeping every offset inside the data block.
+fn disorder_charstrings_index(font: &mut [u8], rng: &mut Rng) -> Option<String> {
+    use read_fonts::tables::postscript::dict::{entries, Entry};
+    use read_fonts::{FontData, FontRead};
+    let dir = vf_core::gen::parse_dir(font, 0);
+    let rec = dir.iter().find(|r| &r.tag == b"CFF " || &r.tag == b"CFF2")?;
+    let (t0, tl) = (rec.offset as usize, rec.len as usize);
+    let table = font.get(t0..t0 + tl)?;
+    let is_cff2 = &rec.tag == b"CFF2";
+    let cs_off = if is_cff2 {
+        let cff2 = read_fonts::tables::cff2::Cff2::read(FontData::new(table)).ok()?;
+        entries(cff2.top_dict_data(), None).find_map(|e| match e {
+            Ok(Entry::CharstringsOffset(o)) => Some(o),
+            _ => None,
+        })?
+    } else {
+        let cff = read_fonts::tables::cff::Cff::read(FontData::new(table)).ok()?;
+        let top = cff.top_dicts().get(0).ok()?;
+        entries(top, None).find_map(|e| match e {
+            Ok(Entry::CharstringsOffset(o)) => Some(o),
+            _ => None,
+        })?
+    };
+    // INDEX header: count (u16 for CFF, u32 for CFF2), offSize u8, offsets[count + 1]
+    let (count, hdr) = if is_cff2 {
+        (u32::from_be_bytes(table.get(cs_off..cs_off + 4)?.try_into().ok()?) as usize, 5)
+    } else {
+        (u16::from_be_bytes(table.get(cs_off..cs_off + 2)?.try_into().ok()?) as usize, 3)
+    };
+    let off_size = *table.get(cs_off + hdr - 1)? as usize;
+    if count < 3 || !(1..=4).contains(&off_size) {
+        return None;
+    }
+    let arr = t0 + cs_off + hdr;
+    let rd = |font: &[u8], i: usize| -> Option<u32> {
+        let b = font.get(arr + i * off_size..arr + (i + 1) * off_size)?;
+        Some(b.iter().fold(0u32, |a, x| (a << 8) | *x as u32))
+    };
+    let wr = |font: &mut [u8], i: usize, v: u32| {
+        let be = v.to_be_bytes();
+        if let Some(b) = font.get_mut(arr + i * off_size..arr + (i + 1) * off_size) {
+            b.copy_from_slice(&be[4 - off_size..]);
+        }
+    };
+    let i = 1 + rng.usize(count - 1); // 1..count-1: never the first or the last offset
+    let (prev, cur, next) = (rd(font, i - 1)?, rd(font, i)?, rd(font, i + 1)?);
+    let how = rng.usize(6);
+    match how {
+        0 => wr(font, i, prev.saturating_sub(1).max(1)),                   // dips below its predecessor
+        1 => wr(font, i, next.saturating_add(1)),                          // rises above its successor
+        2 => {
+            wr(font, i, next);
+            wr(font, i + 1, cur);
+        } // swapped pair
+        3 => wr(font, i, rd(font, i.saturating_sub(2))?.saturating_sub(1).max(1)), // below the run two back
+        4 => wr(font, i, 1),
+        _ => wr(font, i, rd(font, count)?),
+    }
+    Some(format!("charstrings-index-disordered[{}:i={}({}):how={}];", if is_cff2 { "CFF2" } else { "CFF" }, i, if i % 2 == 0 { "even" } else { "odd" }, how))
 }
